@@ -272,6 +272,19 @@ def register(M):
         ex.write_path(cell, path, v.set(items=v.items + (a[1],)))
         return UNIT
 
+    @reg('Vec::retain', 'Vec::retain_mut')
+    def _(ex, info, a, dty):
+        # the predicate is called once per element, front to back; elements it rejects are removed, order kept
+        cell, path, v = vec_at(ex, a[0])
+        kept = []
+        for it in v.items:
+            c = Cell(it)
+            if ex.branch(ex.call_value(a[1], [Ref(c, ())])):
+                kept.append(c.v)
+        cur = ex.read_path(cell, path)
+        ex.write_path(cell, path, cur.set(items=tuple(kept)))
+        return UNIT
+
     @reg('Vec::insert')
     def _(ex, info, a, dty):
         cell, path, v = vec_at(ex, a[0])
